@@ -73,6 +73,7 @@ type Service struct {
 	attestationAggregator         attestationaggregator.Service
 	beaconCommitteeSubscriber     beaconcommitteesubscriber.Service
 	activeValidators              int
+	activeValidatorsMutex         sync.RWMutex
 	subscriptionInfos             map[phase0.Epoch]map[phase0.Slot]map[phase0.CommitteeIndex]*beaconcommitteesubscriber.Subscription
 	subscriptionInfosMutex        sync.Mutex
 	accountsRefresher             accountmanager.Refresher
@@ -195,10 +196,13 @@ func New(ctx context.Context, params ...Parameter) (*Service, error) {
 	if err != nil {
 		return nil, errors.Wrap(err, "failed to obtain active validator indices for the current epoch")
 	}
+	// The accounts refresher started above reads the number of active validators from its own goroutine.
+	s.activeValidatorsMutex.Lock()
 	if len(validatorIndices) != s.activeValidators {
 		log.Info().Int("old_validators", s.activeValidators).Int("new_validators", len(validatorIndices)).Msg("Change in number of active validators")
 		s.activeValidators = len(validatorIndices)
 	}
+	s.activeValidatorsMutex.Unlock()
 	syncCommitteeValidatorIndices, err := s.syncCommitteeIndicesForEpoch(ctx, epoch)
 	if err != nil {
 		return nil, errors.Wrap(err, "failed to obtain sync committee eligible validator indices for the current epoch")
